@@ -149,10 +149,15 @@ RECURSIVE RecFlat(_)
 RecFlat(stream) ==
   IF stream = <<>> THEN <<>>
   ELSE [j \in DOMAIN Head(stream).kvs |-> <<Head(stream).t, Head(stream).kvs[j][1], Head(stream).kvs[j][2]>>] \o RecFlat(Tail(stream))
+\* the recorded stream of an aggregated subscription, flattened (by the post-processing: field aggflat)
+RecFlatOf(x) ==
+  IF Has(Sc, "aggflat") /\ x \in DOMAIN Sc.aggflat
+    THEN [i \in DOMAIN Sc.aggflat[x] |-> <<Sc.aggflat[x][i][1], Sc.aggflat[x][i][2], Sc.aggflat[x][i][3]>>]
+    ELSE RecFlat(Sc.streams[x])
 PerKey(seq, k) == SelectSeq(seq, LAMBDA e : e[2] = k)
 IsPrefixSeq(a, b) == Len(a) <= Len(b) /\ SubSeq(b, 1, Len(a)) = a
 AggOK(x) ==
-  LET rec == RecFlat(Sc.streams[x])
+  LET rec == RecFlatOf(x)
       keys == {rec[i][2] : i \in DOMAIN rec} \cup {cons[x][i][2] : i \in DOMAIN cons[x]}
   IN /\ \A i \in DOMAIN Sc.streams[x] :        \* a batch holds no key twice
           Cardinality({Sc.streams[x][i].kvs[j][1] : j \in DOMAIN Sc.streams[x][i].kvs}) = Len(Sc.streams[x][i].kvs)
@@ -188,9 +193,8 @@ NewCons(X, Y, o) ==
 \* stay comparable key by key (the delivered sequence only grows, so an incomparable pair never recovers; without
 \* this a wrong early choice of the search is only refuted by AggOK at the very end)
 AggCompat(x, c) ==
-  LET rec == RecFlat(Sc.streams[x]) IN
-  \A k \in {c[i][2] : i \in DOMAIN c} :
-     LET a == PerKey(rec, k)  b == PerKey(c, k) IN IsPrefixSeq(a, b) \/ IsPrefixSeq(b, a)
+  \A k \in {c[i][2] : i \in (Len(cons[x]) + 1)..Len(c)} :
+     LET a == PerKey(RecFlatOf(x), k)  b == PerKey(c, k) IN IsPrefixSeq(a, b) \/ IsPrefixSeq(b, a)
 DeliverOK(X, Y, o) ==
   /\ \A x \in DOMAIN cons \ Aggs : NewCons(X, Y, o)[x] # -1
   /\ \A x \in Aggs \cap DOMAIN cons : NewCons(X, Y, o)[x] = cons[x] \/ AggCompat(x, NewCons(X, Y, o)[x])
